@@ -64,6 +64,7 @@ func c17Start(c *h.Ctx, allowHop bool, algo string) *c17Daemon {
 	cfg.Tables.Rib.ReadvertiseNlsr = false
 	cfg.Faces.CongestionMarking = false
 	cfg.Tables.ContentStore.Capacity = 64
+	cfg.Tables.NetworkRegion.Regions = append([]string{}, c17Regions...)
 	// status datasets carry a freshness period of 1 s: with the cache serving, a dataset fetched
 	// right after a command would legitimately be the cached previous one
 	cfg.Tables.ContentStore.Admit = c17CsOn
